@@ -94,10 +94,8 @@ func (f *Dolist) Call(s *slip.Scope, args slip.List, depth int) slip.Object {
 					}
 					return tr
 				case *GoTo:
-					for i++; i < len(args); i++ {
-						if args[i] == tr.Tag {
-							break
-						}
+					if i = tagIndex(args, 1, tr.Tag); i < 0 {
+						return tr // a tag of an enclosing tagbody
 					}
 				}
 			}
